@@ -799,7 +799,14 @@ func (e *NegationExpression) Evaluate(ctx *Context, input system.Collection) (sy
 	// handle negation of value
 	switch v := primitive.(type) {
 	case system.Integer:
-		return system.Collection{system.Integer(-1) * v}, nil
+		negated, err := v.Mul(system.Integer(-1))
+		if errors.Is(err, system.ErrIntOverflow) {
+			return system.Collection{}, nil
+		}
+		if err != nil {
+			return nil, err
+		}
+		return system.Collection{negated}, nil
 	case system.Decimal:
 		negative := system.Decimal(decimal.NewFromInt(-1))
 		return system.Collection{v.Mul(negative)}, nil
